@@ -9,7 +9,7 @@
 (* their 13 530 pairs determine it on all 2^165 seeds; linearity itself is  *)
 (* among the lemmas.                                                        *)
 (***************************************************************************)
-EXTENDS Integers, Sequences, FiniteSets, TLC, Bytes, GF2048, SeedCodec
+EXTENDS Integers, Sequences, FiniteSets, TLC, Json, Bytes, GF2048, SeedCodec
 
 CONSTANT Family
 
@@ -68,6 +68,7 @@ Cases ==
       [] Family = "storage" -> [k : {"b9"}, i : 0..65535, j : BaseIds] \cup [k : {"b31"}, i : 0..65535, j : BaseIds]
                                \cup [k : {"hdr"}, i : 0..255, j : 1..8] \cup [k : {"b29", "b30"}, i : 0..255, j : BaseIds]
                                \cup [k : {"roundtrip"}, i : 0..164, j : {0}] \cup [k : {"mask"}, i : 0..31, j : 0..7]
+      [] Family = "vectors" -> [k : {"vec"}, i : 0..31, j : {0, 1, 2}]
       [] Family = "birthday" -> [k : {"boundary"}, i : 0..1024, j : {0, 1, 2}] \cup [k : {"special"}, i : 1..12, j : {0}]
                                 \cup [k : {"stride"}, i : 0..2047, j : {0}]
 
@@ -277,6 +278,21 @@ StorageLemma(x) ==
             LoadStatus(StoreImage([OnesSeed EXCEPT !.features = x.i]), x.j)
               = (IF Supported(x.i, x.j) THEN StOK ELSE StUnsupported)
 
+-----------------------------------------------------------------------------
+(* Vectors for replay into the code (spec -> code): seeds the library refuses to create - every value of the   *)
+(* five feature bits, the reserved one included - as the serialised image and the word indices the            *)
+(* specification assigns them, with the right check value (j = 0), a check value off by one (j = 1), and a    *)
+(* second secret (j = 2).  The library's verdict on them is judged by trace validation.                       *)
+VecSeed(x) == [ (IF x.j = 2 THEN UnitSeed(77) ELSE OnesSeed) EXCEPT !.features = x.i, !.birthday = 300 + x.i ]
+VecWords(x) == IF x.j = 1 THEN WithCheckOf(Words(VecSeed(x)), (Words(VecSeed(x))[1] + 1) % 2048) ELSE Words(VecSeed(x))
+VecImage(x) == IF x.j = 1
+               THEN Header \o LE16(VecSeed(x).features * 1024 + VecSeed(x).birthday) \o VecSeed(x).secret \o << 255 >> \o LE16(28672 + VecWords(x)[1])
+               ELSE StoreImage(VecSeed(x))
+VectorLemma(x) ==
+    /\ PrintT(<<"VEC", ToJson([f |-> x.i, kind |-> x.j, img |-> VecImage(x), words |-> VecWords(x)])>>)
+    /\ (x.j # 1 => (Valid(VecWords(x)) /\ LoadStatus(VecImage(x), 7) = (IF Supported(x.i, 7) THEN StOK ELSE StUnsupported)))
+    /\ (x.j = 1 => (~Valid(VecWords(x)) /\ LoadStatus(VecImage(x), 7) = StChecksum))
+
 Holds ==
     c.k = "group" \/
     CASE Family = "roundtrip" -> RoundTripLemma(c)
@@ -292,6 +308,7 @@ Holds ==
       [] Family = "gfswap" -> GfSwapLemma(c)
       [] Family = "gfunique" -> GfUniqueLemma(c)
       [] Family = "storage" -> StorageLemma(c)
+      [] Family = "vectors" -> VectorLemma(c)
 
 \* 64 initial "group" states fan out to the cases, so that all TLC workers share the enumeration
 AllCases == Cases
